@@ -42,6 +42,11 @@ SRV_TEXT = {
     "sl": ["[fe80::1]%lo", "fe80::1%lo", "dns://[fe80::1%lo]"],
     "sle": ["[fe80::2]:54%lo", "dns://[fe80::2%lo]:54"],
     "sld": ["dns://[fe80::3%lo]:55?tcpport=56"],
+    # interface name of the maximum legal length (virtual interface table of the harness); the classic forms go
+    # through the bounded nameserver parser, the dns:// form through the URI parser
+    "sL": ["[fe80::4]%verylongiface01", "fe80::4%verylongiface01", "dns://[fe80::4%verylongiface01]"],
+    "sLe": ["[fe80::5]:54%verylongiface01", "dns://[fe80::5%verylongiface01]:54"],
+    "sLd": ["dns://[fe80::6%verylongiface01]:55?tcpport=56"],
 }
 VALS = {
     1: dict(flags=["EDNS"], timeout=1500, tries=2, ndots=4, servers=["10.9.9.9"], domains=["u.example"], lookups="f",
@@ -104,7 +109,7 @@ def build(sid, rec, seed):
     first = steps[0]
     plain = first["op"] == "init_plain"
     path = "$W/etc/resolv.conf" if plain else "$W/resolv.conf"
-    sc = {"id": sid, "etc": {}, "ops": []}
+    sc = {"id": sid, "etc": {}, "ops": [], "virt": 1}
     if rec["hostdom"] != "unset":
         sc["hostname"] = "host." + rec["hostdom"]
     ops = sc["ops"]
